@@ -198,7 +198,7 @@ def shrink(check, scenario, signature, workdir, cap=300, wall=90):
 
 
 def write_replay(cid, signature, seed, index, scenario, message):
-    d = os.path.join(VERIF, "replays", cid)
+    d = os.path.join(os.environ.get("VERIF_REPLAY_DIR", os.path.join(VERIF, "replays")), cid)
     os.makedirs(d, exist_ok=True)
     h = _rng.digest(signature)[:8]
     path = os.path.join(d, f"{h}-{seed}-{index}.json")
@@ -260,8 +260,9 @@ def write_evidence(cid, check, tier, seed, agg, wall_s, nviol, extra=None):
         "wall_s": round(wall_s, 2),
         "violations": nviol,
     }
-    os.makedirs(os.path.join(VERIF, "evidence"), exist_ok=True)
-    path = os.path.join(VERIF, "evidence", cid + ".json")
+    evdir = os.environ.get("VERIF_EVIDENCE_DIR", os.path.join(VERIF, "evidence"))
+    os.makedirs(evdir, exist_ok=True)
+    path = os.path.join(evdir, cid + ".json")
     tmp = path + ".tmp"
     with open(tmp, "w", encoding="utf-8") as f:
         json.dump(ev, f, indent=1, sort_keys=True, default=repr)
